@@ -9,6 +9,7 @@ ids=("$@"); [ ${#ids[@]} -eq 0 ] && ids=($(ls seeded | grep '^m'))
 out=seeded/REGRESS.txt; [ $# -eq 0 ] && : > $out
 for id in "${ids[@]}"; do
   prop=$(jq -r .property seeded/$id/meta.json)
+  if [ "$(jq -r '.masked_on_current_tree // ""' seeded/$id/meta.json)" != "" ]; then echo "$id $prop MASKED (no longer observable on the current tree, see meta.json)" | tee -a $out; continue; fi
   b=45; case $prop in C11|C19) b=75;; esac
   git -C /repo apply /verif/seeded/$id/patch.diff || { echo "$id $prop PATCH-DOES-NOT-APPLY" | tee -a $out; continue; }
   log=$(VERIF_BUDGET_S=$b ./check $prop quick 2>&1); rc=$?
